@@ -159,8 +159,9 @@ def rules(ctx):
         src_name = nz.params[0] if tgt is None else R.self_name(fn)
         valp = fn.params[1]
         loops = [n for n in g.stmts() if isinstance(n, ast.For)]
-        facs = [(s_, v) for nm in ('mult', 'factor', 'scale', 'f', 'm') for s_, v in assignments_to(fn.node, nm)
-                if isinstance(v, ast.BinOp) and isinstance(v.op, ast.Div)]
+        facs = [(n_, n_.value) for n_ in walk_no_nested(strip_docstring(fn.node.body)) if isinstance(n_, ast.Assign)
+                and len(n_.targets) == 1 and isinstance(n_.targets[0], ast.Name) and isinstance(n_.value, ast.BinOp)
+                and isinstance(n_.value.op, ast.Div) and 'max(' in src(n_.value.right)]
         if not facs or not loops:
             raise AnalysisError("normalize (%s): factor / loop not recognised" % fn.qual)
         s_, v = facs[0]
